@@ -11,11 +11,47 @@ import (
 	"github.com/youchainhq/go-youchain/common"
 	"github.com/youchainhq/go-youchain/consensus/solo"
 	"github.com/youchainhq/go-youchain/core"
+	"github.com/youchainhq/go-youchain/core/state"
 	"github.com/youchainhq/go-youchain/core/types"
+	"github.com/youchainhq/go-youchain/core/vm"
 	"github.com/youchainhq/go-youchain/crypto"
+	"github.com/youchainhq/go-youchain/local"
 	"github.com/youchainhq/go-youchain/params"
 	"github.com/youchainhq/go-youchain/youdb"
 )
+
+// Two fixtures make block execution depend on the block's OWN ancestry, as real YOUChain blocks do (staking end-block
+// hook reads the parent header and VersionForRound; contracts read BLOCKHASH):
+//   - bhAddr: a contract that stores BLOCKHASH(number-1) and BLOCKHASH(number-2); transaction spec "<from>-b-0";
+//   - in strict mode an end-of-block hook on the processor that fetches the parent header through the chain reader it is
+//     given, asks it VersionForRound(number), and writes parent.Root into the storage of hookAddr.  The builder's hook
+//     looks the parent up in the forest (ground truth); the importer's hook uses the chain reader the code under test
+//     hands it: a nil parent panics (as staking.checkAndUpgradeValidatorsToYouV5 dereferences it), a failing
+//     VersionForRound returns an error without the write (as the staking hook returns without its receipt).
+var (
+	bhAddr   = common.HexToAddress("0xb10c4a5400000000000000000000000000000011")
+	hookAddr = common.HexToAddress("0x400c000000000000000000000000000000000011")
+	// PUSH1 1 NUMBER SUB BLOCKHASH PUSH1 0 SSTORE  PUSH1 2 NUMBER SUB BLOCKHASH PUSH1 1 SSTORE  STOP
+	bhCode = common.FromHex("6001430340600055600243034060015500")
+)
+
+func hookWrite(st *state.StateDB, parent *types.Header) {
+	st.SetState(hookAddr, common.Hash{}, parent.Root)
+	st.SetState(hookAddr, common.Hash{31: 1}, common.BigToHash(parent.Number))
+}
+
+// importerHook is registered on the BlockChain's processor in strict mode.
+func importerHook(chain vm.ChainReader, header *types.Header, txs []*types.Transaction, st *state.StateDB, seal bool, rec local.DetailRecorder) (*types.Receipt, []byte, error) {
+	parent := chain.GetHeader(header.ParentHash, header.Number.Uint64()-1)
+	if parent == nil {
+		panic(fmt.Sprintf("end-block hook: the chain reader does not know the parent header of block %d", header.Number.Uint64()))
+	}
+	if _, err := chain.VersionForRound(header.Number.Uint64()); err != nil {
+		return nil, nil, err
+	}
+	hookWrite(st, parent)
+	return nil, nil, nil
+}
 
 const genesisTime = 1500000000
 
@@ -52,10 +88,13 @@ func gspec() *core.Genesis {
 	for _, a := range addrs {
 		g.Alloc[a] = core.GenesisAccount{Balance: new(big.Int).Mul(big.NewInt(1000000), big.NewInt(1000000000000))}
 	}
+	g.Alloc[bhAddr] = core.GenesisAccount{Balance: big.NewInt(1), Code: bhCode}
+	g.Alloc[hookAddr] = core.GenesisAccount{Balance: big.NewInt(1)}
 	return g
 }
 
-// txSpec: sender key index -> one plain transfer with the sender's next nonce on that branch.
+// txSpec: sender key index -> one plain transfer with the sender's next nonce on that branch; to = -1: a call of the
+// BLOCKHASH contract.
 type txSpec struct {
 	from, to int
 	amount   int64
@@ -66,13 +105,38 @@ type forest struct {
 	genesis *types.Block
 	proc    *core.StateProcessor
 	eng     *solo.Solo
+	hdrs    map[common.Hash]*types.Header // every header the forest built (and mutants): the builder's chain view
 }
 
-func newForest() *forest {
+// core.ChainContext of the builder
+func (f *forest) VersionForRound(r uint64) (*params.YouParams, error) {
+	yp := params.Versions[params.YouCurrentVersion]
+	return &yp, nil
+}
+func (f *forest) GetHeader(h common.Hash, n uint64) *types.Header {
+	if hd := f.hdrs[h]; hd != nil && hd.Number.Uint64() == n {
+		return hd
+	}
+	return nil
+}
+
+func newForest(strict bool) *forest {
 	gdb := youdb.NewMemDatabase()
 	g := gspec().MustCommit(gdb)
 	eng := solo.NewSolo()
-	return &forest{gdb: gdb, genesis: g, proc: core.NewStateProcessor(nil, eng), eng: eng}
+	f := &forest{gdb: gdb, genesis: g, proc: core.NewStateProcessor(nil, eng), eng: eng, hdrs: map[common.Hash]*types.Header{}}
+	f.hdrs[g.Hash()] = g.Header()
+	if strict {
+		f.proc.AddEndBlockHook("c11-parent", func(chain vm.ChainReader, header *types.Header, txs []*types.Transaction, st *state.StateDB, seal bool, rec local.DetailRecorder) (*types.Receipt, []byte, error) {
+			parent := f.hdrs[header.ParentHash]
+			if parent == nil {
+				panic("builder: unknown parent")
+			}
+			hookWrite(st, parent)
+			return nil, nil, nil
+		})
+	}
+	return f
 }
 
 // child builds one valid block on parent (whose state is in the generator database).
@@ -84,13 +148,18 @@ func (f *forest) child(parent *types.Block, txs []txSpec, salt byte, dt uint64) 
 		g.SetExtra([]byte{salt})
 		g.Header().Time = parent.Time() + dt
 		for _, t := range txs {
-			tx, err := types.SignTx(types.NewTransaction(g.TxNonce(addrs[t.from]), addrs[t.to], big.NewInt(t.amount), params.TxGas, big.NewInt(1), nil), signer, keys[t.from])
+			raw := types.NewTransaction(g.TxNonce(addrs[t.from]), bhAddr, big.NewInt(0), 100000, big.NewInt(1), nil)
+			if t.to >= 0 {
+				raw = types.NewTransaction(g.TxNonce(addrs[t.from]), addrs[t.to], big.NewInt(t.amount), params.TxGas, big.NewInt(1), nil)
+			}
+			tx, err := types.SignTx(raw, signer, keys[t.from])
 			if err != nil {
 				panic(err)
 			}
-			g.AddTx(tx)
+			g.AddTxWithChain(f, tx)
 		}
 	})
+	f.hdrs[blocks[0].Hash()] = blocks[0].Header()
 	return blocks[0]
 }
 
